@@ -42,7 +42,8 @@ def tie_violations(ctx, mism, ops_path):
 
 def run(ctx):
     exe = ctx.go_build("c01")
-    ctx.trusted += ["translator harness/cmd/c01 extract (isKeywords of types.go, go/token keywords, std table of imports.go) -> Generated/C01.lean",
+    ctx.trusted += ["translator harness/cmd/c01 extract (isKeywords of types.go, go/token keywords, std table of imports.go, and three flags read off "
+                    "scope_internal.go / backend.go that say which reserved-name / import repairs the tree carries) -> Generated/C01.lean",
                     "ORACLE = the Go toolchain: thriftgo binary built from the repo, go/parser on every written file, `go build` of all generated "
                     "packages (+ `go vet` type-check lines on a sample); go/types in process only steers the shrinker, every reported input is "
                     "re-established with the binary and go build",
